@@ -1,6 +1,7 @@
 import PlumpyModel.PM.Proof3
 import PlumpyModel.PM.Proof9
 import PlumpyModel.PM.Proof8
+import PlumpyModel.PM.Proof7
 /-!
 # C05 — transparency of pause/play as a simulation (helper definitions and lemmas)
 
@@ -439,5 +440,332 @@ theorem enterNext_sh (c d : Cfg) (s s' : SObj) (h : sh c = sh d) (hs : SSim s s'
   split
   · exact onTerminated_sh _ _ h1
   · exact h1
+
+/-! ### transitions of both runs -/
+
+theorem forceExcepted_stw (c : Cfg) (e : Exc) : (forceExcepted c e).st = .excepted e ∧ (forceExcepted c e).wfs = c.wfs := by
+  unfold forceExcepted; split
+  · exact ⟨rfl, rfl⟩
+  · have h1 := onTerminated_sameW (enteredHooks (setState (setFutExc c e) (.excepted e)) (.excepted e))
+    have h2 := enteredHooks_sameW (setState (setFutExc c e) (.excepted e)) (.excepted e)
+    have h3 := setFutExc_sameW c e
+    exact ⟨h1.1.trans h2.1, h1.2.trans (h2.2.trans h3.2)⟩
+
+theorem enterNext_stw (c : Cfg) (s : SObj) : (enterNext c s).st = s ∧ (enterNext c s).wfs = c.wfs := by
+  unfold enterNext; dsimp only
+  have h2 := enteredHooks_sameW (setState (enterState c s) s) s
+  have h3 := enterState_sameW c s
+  have h : (enteredHooks (setState (enterState c s) s) s).st = s ∧
+      (enteredHooks (setState (enterState c s) s) s).wfs = c.wfs := ⟨h2.1, h2.2.trans h3.2⟩
+  split
+  · have h1 := onTerminated_sameW (enteredHooks (setState (enterState c s) s) s)
+    exact ⟨h1.1.trans h.1, h1.2.trans h.2⟩
+  · exact h
+
+/-- a next state object for both runs: they agree, and a wait future they point to is not the one of the state being left -/
+def NextRel (c d : Cfg) (s s' : SObj) : Prop :=
+  (s = s' ∧ NotWaiting s) ∨
+  ∃ fn wf aw wf' w, s = .waiting fn wf none aw ∧ s' = .waiting fn wf' none aw ∧
+     c.wfs[wf]? = some w ∧ d.wfs[wf']? = some w ∧ (∀ k, w ≠ .interrupted k) ∧
+     (∀ f' w' wk' aw', c.st = .waiting f' w' wk' aw' → w' ≠ wf) ∧
+     (∀ f' w' wk' aw', d.st = .waiting f' w' wk' aw' → w' ≠ wf')
+
+theorem NextRel.ssim {c d s s'} (h : NextRel c d s s') : SSim s s' := by
+  rcases h with h | ⟨fn, wf, aw, wf', w, h1, h2, _⟩
+  · exact Or.inl h
+  · exact Or.inr ⟨fn, wf, aw, wf', h1, h2⟩
+
+theorem NextRel.afterExit {c d s s'} (h : NextRel c d s s') : SRel (exitState c).wfs (exitState d).wfs s s' := by
+  rcases h with h | ⟨fn, wf, aw, wf', w, h1, h2, h3, h4, h5, h6, h7⟩
+  · exact Or.inl h
+  · exact Or.inr ⟨fn, wf, aw, wf', w, h1, h2, by rw [exitState_wfs_other c wf h6]; exact h3,
+      by rw [exitState_wfs_other d wf' h7]; exact h4, h5⟩
+
+theorem excepted_notWaiting (e : Exc) : NotWaiting (.excepted e) := by intro a b c d h; cases h
+
+theorem transitionTo_core (c d : Cfg) (s s' : SObj) (h : Core c d) (hn : NextRel c d s s') :
+    Core (transitionTo c s) (transitionTo d s') := by
+  have hss := hn.ssim
+  have hsr := hn.afterExit
+  have hkc := (transitionTo_kn c s).imp h.ckill
+  have hkd := transitionTo_kp d s'
+  refine ⟨?_, ?_, hkc, by rw [hkd.1]; exact h.dint, by rw [hkd.2.1]; exact h.dpaused⟩
+  · -- shared fields
+    have hcl : c.closed = d.closed := (sh_fields h.sh).2.2.2.1
+    have he := exitState_sh c d h.sh h.st.ssim
+    unfold transitionTo
+    rw [hss.label, h.label, hcl]
+    split
+    · dsimp only
+      split
+      · exact he
+      · rcases enteringHooks_sh (exitState c) (exitState d) s s' he hss with ⟨e, h1, h2⟩ | ⟨c2, d2, h1, h2, h3⟩
+        · rw [h1, h2]; exact forceExcepted_sh _ _ e he
+        · rw [h1, h2]; exact enterNext_sh _ _ _ _ h3 hss
+    · exact forceExcepted_sh _ _ _ h.sh
+  · -- state object
+    have hcl : c.closed = d.closed := (sh_fields h.sh).2.2.2.1
+    have he := exitState_sh c d h.sh h.st.ssim
+    unfold transitionTo
+    rw [hss.label, h.label, hcl]
+    split
+    · dsimp only
+      split
+      · exact hsr
+      · rcases enteringHooks_sh (exitState c) (exitState d) s s' he hss with ⟨e, h1, h2⟩ | ⟨c2, d2, h1, h2, h3⟩
+        · rw [h1, h2]; dsimp only
+          rw [(forceExcepted_stw _ e).1, (forceExcepted_stw _ e).1]
+          exact SRel.of_notWaiting (excepted_notWaiting e)
+        · rw [h1, h2]; dsimp only
+          rw [(enterNext_stw c2 s).1, (enterNext_stw c2 s).2, (enterNext_stw d2 s').1, (enterNext_stw d2 s').2,
+            (enteringHooks_sameW _ c2 s h1).2, (enteringHooks_sameW _ d2 s' h2).2]
+          exact hsr
+    · rw [(forceExcepted_stw _ _).1, (forceExcepted_stw _ _).1]
+      exact SRel.of_notWaiting (excepted_notWaiting _)
+
+/-! ### the end of a step -/
+
+theorem Core.left {c c' d : Cfg} (h : Core c d) (f : PFrame c c') : Core c' d :=
+  ⟨f.1.trans h.sh, by rw [f.2.1, f.2.2.1]; exact h.st,
+   by have := (sh_fields f.1).2.2.2.2.2.2.2.2.2.2.2.2.2.2; rw [this]; exact h.ckill, h.dint, h.dpaused⟩
+
+theorem Core.right {c d d' : Cfg} (h : Core c d) (f : PFrame d d') (hi : d'.interrupt = none) (hp : d'.paused = none) :
+    Core c d' :=
+  ⟨h.sh.trans f.1.symm, by rw [f.2.1, f.2.2.1]; exact h.st, h.ckill, hi, hp⟩
+
+theorem NextRel.frames {c c' d d' : Cfg} {s s' : SObj} (h : NextRel c d s s') (f : PFrame c c') (g : PFrame d d') :
+    NextRel c' d' s s' := by
+  unfold NextRel
+  rw [f.2.1, f.2.2.1, g.2.1, g.2.2.1]; exact h
+
+/-- the interrupt slot of the run with pauses is empty or holds a pause action that is pending or was retracted by play -/
+def IntOk (c : Cfg) : Prop :=
+  ∀ i, c.interrupt = some i → ∃ a, c.actions[i]? = some a ∧ a.kind = .pause ∧ (a.status = .pending ∨ a.status = .cancelled)
+
+theorem IntOk.of_none {c : Cfg} (h : c.interrupt = none) : IntOk c := by
+  intro i hi; rw [h] at hi; cases hi
+
+/-- `transition_to(next)` when there is a next state -/
+def transOpt (c : Cfg) (n : Option SObj) : Cfg :=
+  match n with
+  | some s => transitionTo c s
+  | none => c
+
+theorem runAction_pause (c : Cfg) (i : Nat) (a : Action) (next : Option SObj) (ha : c.actions[i]? = some a)
+    (hk : a.kind = .pause) (hs : a.status = .pending) :
+    runAction c i next = setActionStatus (doPauseHooks (transOpt c next)) i .done := by
+  unfold runAction transOpt
+  simp only [ha, hs, hk, ne_eq, not_true_eq_false, if_false]
+  cases next <;> rfl
+
+def NextOpt (c d : Cfg) (n n' : Option SObj) : Prop :=
+  (n = none ∧ n' = none) ∨ ∃ s s', n = some s ∧ n' = some s' ∧ NextRel c d s s'
+
+theorem transOpt_core (c d : Cfg) (n n' : Option SObj) (h : Core c d) (hn : NextOpt c d n n') :
+    Core (transOpt c n) (transOpt d n') := by
+  rcases hn with ⟨rfl, rfl⟩ | ⟨s, s', rfl, rfl, hr⟩
+  · exact h
+  · exact transitionTo_core c d s s' h hr
+
+theorem transOpt_pc (c : Cfg) (n : Option SObj) : (transOpt c n).pc = c.pc := by
+  cases n with
+  | none => rfl
+  | some s => exact (transitionTo_kp c s).2.2.1
+
+theorem dispatch_d (d : Cfg) (n : Option SObj) (hi : d.interrupt = none) (hl : terminal d.st.label = false) :
+    dispatch d n = transOpt d n := by
+  unfold dispatch transOpt; simp only [hl, hi, Bool.false_eq_true, if_false]
+  cases n <;> rfl
+
+/-- `dispatch` of the run with pauses, by the content of its interrupt slot -/
+theorem dispatch_c (c : Cfg) (n : Option SObj) (hi : IntOk c) (hl : terminal c.st.label = false) :
+    dispatch c n = transOpt c n ∨
+    (∃ i, c.interrupt = some i ∧ dispatch c n = setActionStatus (doPauseHooks (transOpt c n)) i .done) := by
+  cases hint : c.interrupt with
+  | none => exact Or.inl (dispatch_d c n hint hl)
+  | some i =>
+    obtain ⟨a, ha, hk, hst⟩ := hi i hint
+    have hst' : actionStatus c i = a.status := by simp [actionStatus, ha]
+    rcases hst with hp | hc
+    · right
+      refine ⟨i, rfl, ?_⟩
+      rw [← runAction_pause c i a n ha hk hp]
+      unfold dispatch
+      simp only [hl, hint, Bool.false_eq_true, if_false, hst', hp]
+      simp
+    · left
+      unfold dispatch transOpt
+      simp only [hl, hint, Bool.false_eq_true, if_false, hst', hc]
+      cases n <;> simp
+
+theorem dispatch_core (c d : Cfg) (n n' : Option SObj) (h : Core c d) (hi : IntOk c) (hn : NextOpt c d n n') :
+    Core (dispatch c n) (dispatch d n') ∧ (dispatch c n).pc = c.pc ∧ (dispatch d n').pc = d.pc := by
+  by_cases hl : terminal c.st.label = true
+  · have hl' : terminal d.st.label = true := by rw [← h.label]; exact hl
+    have e1 : dispatch c n = c := by unfold dispatch; simp [hl]
+    have e2 : dispatch d n' = d := by unfold dispatch; simp [hl']
+    rw [e1, e2]; exact ⟨h, rfl, rfl⟩
+  · have hlf : terminal c.st.label = false := by simpa using hl
+    have hl' : terminal d.st.label = false := by rw [← h.label]; exact hlf
+    rw [dispatch_d d n' h.dint hl']
+    have ht := transOpt_core c d n n' h hn
+    rcases dispatch_c c n hi hlf with e | ⟨i, _, e⟩
+    · rw [e]; exact ⟨ht, transOpt_pc c n, transOpt_pc d n'⟩
+    · rw [e]
+      refine ⟨(ht.left (doPauseHooks_pf _)).left (setActionStatus_pf _ _ _), ?_, transOpt_pc d n'⟩
+      rw [(setActionStatus_pf _ _ _).2.2.2, (doPauseHooks_pf _).2.2.2]
+      exact transOpt_pc c n
+
+theorem finally_core (c d : Cfg) (h : Core c d) :
+    Core (finally_ c) (finally_ d) ∧ (finally_ c).interrupt = none ∧ (finally_ c).pc = c.pc ∧ (finally_ d).pc = d.pc ∧
+    (finally_ c).stepping = false := by
+  have h0 : Core { c with stepping := false } { d with stepping := false } := by
+    refine ⟨?_, h.st, h.ckill, h.dint, h.dpaused⟩
+    obtain ⟨h1, h2, h3, h4, h5, h6, h7, h8, h9, h10, h11, h12, h13, h14, h15⟩ := sh_fields h.sh
+    rw [sh_eq_iff]; simp [*]
+  have f1 := setInterrupt_pf { c with stepping := false } none
+  have f2 := setInterrupt_pf { d with stepping := false } none
+  have i2 : (setInterrupt { d with stepping := false } none).interrupt = none := by unfold setInterrupt; split <;> rfl
+  have i1 : (setInterrupt { c with stepping := false } none).interrupt = none := by unfold setInterrupt; split <;> rfl
+  have p2 : (setInterrupt { d with stepping := false } none).paused = none := by
+    rw [(setInterrupt_pc _ _).2.2.1]; exact h.dpaused
+  refine ⟨(h0.left f1).right f2 i2 p2, i1, f1.2.2.2, f2.2.2.2, ?_⟩
+  have := (sh_fields f1.1).1
+  exact this
+
+theorem prepare_next_exc (c : Cfg) (e : Exc) :
+    prepare c (.next (some (.excepted e))) = (setInterrupt c none, some (.excepted e)) := rfl
+theorem prepare_next_other (c : Cfg) (n : Option SObj) (h : ∀ e, n ≠ some (.excepted e)) : prepare c (.next n) = (c, n) := by
+  cases n with
+  | none => rfl
+  | some s => cases s <;> first | rfl | exact absurd rfl (h _)
+theorem endOfStep_unfold (c : Cfg) (r : StepEnd) : endOfStep c r = finally_ (dispatch (prepare c r).1 (prepare c r).2) := rfl
+theorem endOfStep_exception (c : Cfg) (e : Exc) : endOfStep c (.exception e) = endOfStep c (.next (some (.excepted e))) := rfl
+
+theorem setInterrupt_none_interrupt (c : Cfg) : (setInterrupt c none).interrupt = none := by
+  unfold setInterrupt; split <;> rfl
+
+/-- what the end of a step establishes for the two runs -/
+structure EndRel (c d c' d' : Cfg) : Prop where
+  core : Core c' d'
+  int : c'.interrupt = none
+  pcc : c'.pc = c.pc
+  pcd : d'.pc = d.pc
+  stepping : c'.stepping = false
+
+theorem endRel_of (c d c0 d0 : Cfg) (n n' : Option SObj) (h : Core c0 d0) (hi : IntOk c0) (hn : NextOpt c0 d0 n n')
+    (hpc : c0.pc = c.pc) (hpd : d0.pc = d.pc) :
+    EndRel c d (finally_ (dispatch c0 n)) (finally_ (dispatch d0 n')) := by
+  obtain ⟨h1, h2, h3⟩ := dispatch_core c0 d0 n n' h hi hn
+  obtain ⟨g1, g2, g3, g4, g5⟩ := finally_core _ _ h1
+  exact ⟨g1, g2, g3.trans (h2.trans hpc), g4.trans (h3.trans hpd), g5⟩
+
+theorem endOfStep_core (c d : Cfg) (n n' : Option SObj) (h : Core c d) (hi : IntOk c) (hn : NextOpt c d n n') :
+    EndRel c d (endOfStep c (.next n)) (endOfStep d (.next n')) := by
+  rw [endOfStep_unfold, endOfStep_unfold]
+  by_cases hx : ∃ e, n = some (.excepted e)
+  · obtain ⟨e, rfl⟩ := hx
+    have hn' : n' = some (.excepted e) := by
+      rcases hn with ⟨h1, _⟩ | ⟨s, s', h1, h2, hr⟩
+      · cases h1
+      · cases h1
+        rcases hr with ⟨rfl, _⟩ | ⟨fn, wf, aw, wf', w, h3, _⟩
+        · exact h2
+        · cases h3
+    subst hn'
+    rw [prepare_next_exc, prepare_next_exc]
+    dsimp only
+    have f1 := setInterrupt_pf c none
+    have f2 := setInterrupt_pf d none
+    apply endRel_of
+    · exact (h.left f1).right f2 (setInterrupt_none_interrupt d) (by rw [(setInterrupt_pc _ _).2.2.1]; exact h.dpaused)
+    · exact IntOk.of_none (setInterrupt_none_interrupt c)
+    · exact Or.inr ⟨_, _, rfl, rfl, Or.inl ⟨rfl, excepted_notWaiting e⟩⟩
+    · exact f1.2.2.2
+    · exact f2.2.2.2
+  · have hne : ∀ e, n ≠ some (.excepted e) := fun e he => hx ⟨e, he⟩
+    have hne' : ∀ e, n' ≠ some (.excepted e) := by
+      intro e he
+      rcases hn with ⟨h1, h2⟩ | ⟨s, s', h1, h2, hr⟩
+      · rw [h2] at he; cases he
+      · rw [h2] at he; cases he
+        rcases hr with ⟨rfl, _⟩ | ⟨fn, wf, aw, wf', w, _, h3, _⟩
+        · exact hne e h1
+        · cases h3
+    rw [prepare_next_other c n hne, prepare_next_other d n' hne']
+    exact endRel_of c d c d n n' h hi hn rfl rfl
+
+/-! ### commands returned by user code -/
+
+theorem getElem?_append_of_some {α} (l : List α) (x : α) (i : Nat) (w : α) (h : l[i]? = some w) : (l ++ [x])[i]? = some w := by
+  have hlt : i < l.length := (List.getElem?_eq_some_iff.mp h).1
+  rw [List.getElem?_append_left hlt]; exact h
+
+theorem SRel.append {cw dw : List WF} {s s' : SObj} (x y : WF) (h : SRel cw dw s s') : SRel (cw ++ [x]) (dw ++ [y]) s s' := by
+  rcases h with h | ⟨fn, wf, aw, wf', w, h1, h2, h3, h4, h5⟩
+  · exact Or.inl h
+  · exact Or.inr ⟨fn, wf, aw, wf', w, h1, h2, getElem?_append_of_some _ _ _ _ h3, getElem?_append_of_some _ _ _ _ h4, h5⟩
+
+theorem SRel.ptr_lt {cw dw : List WF} {s s' : SObj} (h : SRel cw dw s s') :
+    (∀ f w wk aw, s = .waiting f w wk aw → w < cw.length) ∧ (∀ f w wk aw, s' = .waiting f w wk aw → w < dw.length) := by
+  rcases h with ⟨rfl, hnw⟩ | ⟨fn, wf, aw, wf', w, h1, h2, h3, h4, h5⟩
+  · exact ⟨fun f w wk aw hs => absurd hs (hnw _ _ _ _), fun f w wk aw hs => absurd hs (hnw _ _ _ _)⟩
+  · subst h1; subst h2
+    refine ⟨?_, ?_⟩
+    · intro f w' wk aw' hs; cases hs; exact (List.getElem?_eq_some_iff.mp h3).1
+    · intro f w' wk aw' hs; cases hs; exact (List.getElem?_eq_some_iff.mp h4).1
+
+theorem nextRel_alloc (c d : Cfg) (fn : Nat) (aw : List (Nat × Nat)) (h : Core c d) :
+    NextRel { c with wfs := c.wfs ++ [.pending] } { d with wfs := d.wfs ++ [.pending] }
+      (.waiting fn c.wfs.length none aw) (.waiting fn d.wfs.length none aw) := by
+  obtain ⟨p1, p2⟩ := h.st.ptr_lt
+  refine Or.inr ⟨fn, c.wfs.length, aw, d.wfs.length, .pending, rfl, rfl, ?_, ?_, ?_, ?_, ?_⟩
+  · simp
+  · simp
+  · intro k hk; cases hk
+  · intro f w wk aw' hs; exact Nat.ne_of_lt (p1 f w wk aw' hs)
+  · intro f w wk aw' hs; exact Nat.ne_of_lt (p2 f w wk aw' hs)
+
+theorem core_alloc (c d : Cfg) (h : Core c d) :
+    Core { c with wfs := c.wfs ++ [.pending] } { d with wfs := d.wfs ++ [.pending] } :=
+  ⟨h.sh, h.st.append _ _, h.ckill, h.dint, h.dpaused⟩
+
+theorem cmdToState_core (c d : Cfg) (cmd : Cmd) (h : Core c d) :
+    Core (cmdToState c cmd).1 (cmdToState d cmd).1 ∧
+    NextRel (cmdToState c cmd).1 (cmdToState d cmd).1 (cmdToState c cmd).2 (cmdToState d cmd).2 ∧
+    (cmdToState c cmd).1.interrupt = c.interrupt ∧ (cmdToState c cmd).1.actions = c.actions ∧
+    (cmdToState c cmd).1.pc = c.pc ∧ (cmdToState d cmd).1.pc = d.pc := by
+  cases cmd with
+  | cont fn args kw => exact ⟨h, Or.inl ⟨rfl, by intro a b c d h; cases h⟩, rfl, rfl, rfl, rfl⟩
+  | stop v ok => exact ⟨h, Or.inl ⟨rfl, by intro a b c d h; cases h⟩, rfl, rfl, rfl, rfl⟩
+  | kill => exact ⟨h, Or.inl ⟨rfl, by intro a b c d h; cases h⟩, rfl, rfl, rfl, rfl⟩
+  | wait fn => exact ⟨core_alloc c d h, nextRel_alloc c d fn [] h, rfl, rfl, rfl, rfl⟩
+  | waitOn fn aw => exact ⟨core_alloc c d h, nextRel_alloc c d fn aw h, rfl, rfl, rfl, rfl⟩
+
+theorem IntOk.of_eq {c c' : Cfg} (h : IntOk c) (h1 : c'.interrupt = c.interrupt) (h2 : c'.actions = c.actions) : IntOk c' := by
+  intro i hi; rw [h1] at hi; rw [h2]; exact h i hi
+
+theorem finishUser_core (c d : Cfg) (o : Outcome) (h : Core c d) (hi : IntOk c) :
+    EndRel c d (finishUser c o) (finishUser d o) := by
+  cases o with
+  | raise e =>
+    exact endOfStep_core c d _ _ h hi (Or.inr ⟨_, _, rfl, rfl, Or.inl ⟨rfl, excepted_notWaiting e⟩⟩)
+  | ret cmd =>
+    obtain ⟨h1, h2, h3, h4, h5, h6⟩ := cmdToState_core c d cmd h
+    have := endOfStep_core (cmdToState c cmd).1 (cmdToState d cmd).1 _ _ h1 (hi.of_eq h3 h4) (Or.inr ⟨_, _, rfl, rfl, h2⟩)
+    exact ⟨this.core, this.int, this.pcc.trans h5, this.pcd.trans h6, this.stepping⟩
+
+/-- waking from a wait whose future completed (not interrupted) -/
+theorem wake_core (c d : Cfg) (fn wf wf' : Nat) (w : WF) (h : Core c d) (hi : IntOk c) (hw : ∀ k, w ≠ .interrupted k)
+    (hp : w ≠ .pending) : EndRel c d (wake c fn wf w) (wake d fn wf' w) := by
+  cases w with
+  | pending => exact absurd rfl hp
+  | interrupted k => exact absurd rfl (hw k)
+  | result v =>
+    exact endOfStep_core c d _ _ h hi (Or.inr ⟨_, _, rfl, rfl, Or.inl ⟨rfl, by intro a b c d h; cases h⟩⟩)
+  | failed e =>
+    show EndRel c d (endOfStep c (.exception e)) (endOfStep d (.exception e))
+    rw [endOfStep_exception, endOfStep_exception]
+    exact endOfStep_core c d _ _ h hi (Or.inr ⟨_, _, rfl, rfl, Or.inl ⟨rfl, excepted_notWaiting e⟩⟩)
 
 end PMF
